@@ -110,6 +110,8 @@ def check_history(rec, resumed=False):
             why = "after-n_final_samples-enlargement" if (enlarged and extra == 1 and series.startswith("mcmc_")) else "other"
             out.append((f"C18/series-length/{series}/extra={extra}/{why}", {"len": len(h[series]), "iterations": n}))
     sh = h["sample_history"]
+    # histories of float32 populations are only accurate to float32 rounding
+    rt = 5e-5 if any(s.get("dtype") == "float32" for s in sh) else 1e-9
     if len(sh) != n + 1:
         out.append((f"C18/sample_history-length/{'resumed' if resumed else 'fresh'}/extra={len(sh) - n - 1}",
                     {"len": len(sh), "iterations": n}))
@@ -125,13 +127,13 @@ def check_history(rec, resumed=False):
         a = _a(prev)
         logu = [(b1 - b0) * v for v in a]
         e = float(ref.ess(logu))
-        if not ref.close(h["ess"][t - 1], e, 1e-9, 1e-12):
+        if not ref.close(h["ess"][t - 1], e, rt, 1e-12):
             out.append(("C18/ess-mismatch", {"t": t, "got": h["ess"][t - 1], "ref": e}))
         lr = float(ref.log_mean_exp(logu))
-        if not ref.close(h["log_norm_ratio"][t - 1], lr, 1e-9, 1e-9 * (1 + abs(b1 - b0) * max([abs(v) for v in a if math.isfinite(v)] or [0.0]))):
+        if not ref.close(h["log_norm_ratio"][t - 1], lr, rt, rt * (1 + abs(b1 - b0) * max([abs(v) for v in a if math.isfinite(v)] or [0.0]))):
             out.append(("C18/ratio-mismatch", {"t": t, "got": h["log_norm_ratio"][t - 1], "ref": lr}))
         et = float(ref.ess([(1.0 - b0) * v for v in a]))
-        if not ref.close(h["ess_target"][t - 1], et, 1e-9, 1e-12):
+        if not ref.close(h["ess_target"][t - 1], et, rt, 1e-12):
             out.append(("C18/ess_target-mismatch", {"t": t, "got": h["ess_target"][t - 1], "ref": et}))
     return out
 
